@@ -11,9 +11,9 @@ from harness import simradio
 from harness.simradio import SimWorld, SimSpiDev, SimPin, SimTimeout
 from harness.rfsession import hx, unhex, sb, b01, show_radio, show_air, split_ops, pb, opt_int, rf24_call
 
-# one public call of a node: 15 virtual seconds of SPI traffic (the longest legitimate call of any generator is a
+# one public call of a node: 6 virtual seconds of SPI traffic (the longest legitimate call of any generator is a
 # 2.5 s renew_address()); a call that needs more does not terminate (`exc=DIVERGE`)
-NET_CALL_BUDGET = 1_500_000
+NET_CALL_BUDGET = 600_000
 
 
 def show_frame(f) -> str:
@@ -139,7 +139,8 @@ class NetSession:
 
         def build():
             node._rf24_rid = rid
-            klass.__init__(node, SimSpiDev(w, rid), SimPin(), SimPin(w, rid, ce=True), arg)
+            csn = SimPin()
+            klass.__init__(node, SimSpiDev(w, rid, csn), csn, SimPin(w, rid, ce=True), arg)
             return "ok"
 
         # the constructor itself polls nothing; hook read() right after RF24 exists
@@ -200,6 +201,8 @@ class NetSession:
                 node.route_timeout = int(v)
             elif a == "ret_sys_msg":
                 node.ret_sys_msg = pb(v)
+            elif a == "node_id":
+                node.node_id = int(v)
             elif a == "allow_children":
                 node.allow_children = pb(v)
             elif a == "address_suffix":
